@@ -1,6 +1,6 @@
 """C30 (printer round-trip mode reproduces the source) and C31 (formatting preserves meaning and is idempotent).
 
-spec/PrintLayout.tla says what a LAYOUT is: a token skeleton (spec/PrintLayoutSkel.tla: ten small valid files that
+spec/PrintLayout.tla says what a LAYOUT is: a token skeleton (spec/PrintLayoutSkel.tla: eleven small valid files that
 together contain every element kind) plus one trivia string per gap; placements <<gap, trivia kind>> override the
 plain default layout; every gap has a class <scope>:<token before>|<token after> and a zone, every trivia kind a
 category, and the FEATURE VECTOR of a layout is the set of "<category>@<zone>(<class>)=<kind>" of its placements.
@@ -16,7 +16,7 @@ import vf
 ALL_KINDS = ["none", "sp", "sp2", "tab", "lf", "lf3", "blank", "crlf", "lcom", "trail", "ownlcom", "detach", "bcom",
              "spbcom", "mlbcom", "bom", "eofcom"]
 CORE_KINDS = ["none", "sp", "lf", "blank", "trail", "ownlcom", "detach", "bcom", "mlbcom"]
-SKELS = ["hdr", "msg", "body", "enum", "copt", "lit", "svc", "ed", "odd", "empty"]
+SKELS = ["hdr", "msg", "body", "enum", "copt", "coptml", "lit", "svc", "ed", "odd", "empty"]
 
 CFG = """SPECIFICATION Spec
 CONSTANTS
